@@ -113,9 +113,9 @@ impl File {
 
 /// Designation table builder with shared and overlapping strings: "XABC\0" serves both "XABC" (index 0)
 /// and "ABC" (index 1) when both are wanted.
-pub fn build_chars(desigs: &[Option<String>], overlap: bool) -> (Vec<u8>, Vec<u8>) {
+pub fn build_chars(desigs: &[Option<String>], overlap: bool) -> (Vec<u8>, Vec<usize>) {
     let mut chars: Vec<u8> = vec![];
-    let mut idx: Vec<u8> = vec![];
+    let mut idx: Vec<usize> = vec![];
     for d in desigs {
         let want: &[u8] = d.as_deref().unwrap_or("").as_bytes();
         // reuse: any position where `want\0` already occurs
@@ -141,22 +141,23 @@ pub fn build_chars(desigs: &[Option<String>], overlap: bool) -> (Vec<u8>, Vec<u8
                 p
             }
         };
-        idx.push(p as u8);
+        idx.push(p);
     }
     (chars, idx)
 }
 
 pub fn block_from_zone(z: &ZoneSpec, overlap: bool) -> Option<Block> {
-    if z.types.len() > 255 || z.types.is_empty() {
+    if z.types.len() > 256 || z.types.is_empty() {
         return None;
     }
-    let (chars, idx) = build_chars(&z.types.iter().map(|t| t.desig.clone()).collect::<Vec<_>>(), overlap);
-    if chars.len() > 255 {
+    // wide type tables share their strings, otherwise the single-octet indices cannot reach them
+    let (chars, idx) = build_chars(&z.types.iter().map(|t| t.desig.clone()).collect::<Vec<_>>(), overlap || z.types.len() > 30);
+    if idx.iter().any(|&i| i > 255) {
         return None;
     }
     Some(Block {
         transitions: z.transitions.iter().map(|&(t, i)| (t, i as u8)).collect(),
-        types: z.types.iter().zip(idx.iter()).map(|(t, &i)| (t.off, t.dst as u8, i)).collect(),
+        types: z.types.iter().zip(idx.iter()).map(|(t, &i)| (t.off, t.dst as u8, i as u8)).collect(),
         chars,
         leaps: z.leaps.0.clone(),
         isstd: vec![],
